@@ -15,3 +15,25 @@ func (h *History) VerifPrevious() string         { return h.previous() }
 func (h *History) VerifNext() string             { return h.next() }
 func (h *History) VerifCursor() int              { return h.cursor }
 func (h *History) VerifLines() []string          { return h.lines }
+
+// --- constants.go ---
+
+func VerifConstants() map[string]int {
+	return map[string]int{
+		"chunkSize":               chunkSize,
+		"slab16Size":              slab16Size,
+		"slab32Size":              slab32Size,
+		"readerBufferSize":        readerBufferSize,
+		"readerSlabSize":          readerSlabSize,
+		"queryCacheMax":           queryCacheMax,
+		"mergerCacheMax":          mergerCacheMax,
+		"numPartitionsMultiplier": numPartitionsMultiplier,
+		"maxPartitions":           maxPartitions,
+		"maxPatternLength":        maxPatternLength,
+		"exitOk":                  ExitOk,
+		"exitNoMatch":             ExitNoMatch,
+		"exitError":               ExitError,
+		"exitBecome":              ExitBecome,
+		"exitInterrupt":           ExitInterrupt,
+	}
+}
